@@ -135,7 +135,7 @@ PROPERTY = {
         not_decided=['the forward BFS that attaches a calculator to each node by op class (plinio/graph/annotation.py) over ARBITRARY DAGs: it is executed from source, with the '
                      'wiring clause as post-condition, only on the enumerated architectures of contracts/whole_pit.py (bounded in topology)',
                      'exclusion of layers by name / type beyond the three enumerated architectures (concat of excluded layers: holds; a searchable layer summed with / feeding an excluded '
-                     'layer: known findings on the unchanged tree, known_findings.json)', 'squeeze / unsqueeze rules of the BFS',
+                     'layer: defects found on the unchanged tree, repaired in /repo afa9734)', 'squeeze / unsqueeze rules of the BFS',
                      'MPS: the consumer-is-charged-for-the-alive-channels-of-its-producer clause on the enumerated models of contracts/whole_mps.py only'],
         assumptions=['in the calculator-level harnesses which calculator a layer is wired to is taken as given (hypothesis H-calc); the whole-model harnesses discharge it for their architectures'],
     ),
